@@ -557,6 +557,22 @@ pub fn gen_schema(ch: &mut Choices, o: &SchemaGenOpts) -> GenSchema {
             });
         }
         if ch.chance(1, 2) {
+            // @cache(ttl: Int! = 60, scope: String): a non-null argument WITH a default may be left out, and so may the
+            // whole argument list
+            let all = ["FIELD", "QUERY", "FRAGMENT_SPREAD", "OBJECT", "FIELD_DEFINITION", "INTERFACE", "SCALAR", "ENUM", "INPUT_OBJECT", "UNION"];
+            let n = ch.range(2, all.len());
+            directive_defs.push(MDirectiveDef {
+                desc: None,
+                name: "cache".into(),
+                args: vec![
+                    MInputValue { desc: None, name: "ttl".into(), ty: MType::non_null(MType::named("Int")), default: Some(MValue::Int("60".into())), directives: vec![] },
+                    MInputValue { desc: None, name: "scope".into(), ty: MType::named("String"), default: None, directives: vec![] },
+                ],
+                repeatable: false,
+                locations: pick_distinct(ch, &all, n),
+            });
+        }
+        if ch.chance(1, 2) {
             // @auth(role: <enum or String>) non-repeatable, subset of locations
             let role_ty = if let Some(e) = enums.first() { MType::named(e) } else { MType::named("String") };
             let all = [
@@ -607,6 +623,8 @@ pub fn gen_schema(ch: &mut Choices, o: &SchemaGenOpts) -> GenSchema {
                                     }
                                 } else if a.name == "name" {
                                     MValue::Str(ch.pick(&["a", "b c", "caf\u{e9}"]).to_string())
+                                } else if a.name == "scope" {
+                                    MValue::Str("private".into())
                                 } else if a.name == "labels" {
                                     match ch.below(4) {
                                         0 => MValue::Null,
